@@ -411,6 +411,32 @@ def _store_map(v, base='P'):
     return out, repr(cur)
 
 
+def cycle_roles(F):
+    """Private layout of SimpleCycle and its iterator by role, from the field types and from what iter() stores:
+    the successor table is the Vec<usize>; the usize handed to the iterator's cursor is the start; the other is the length."""
+    a = F.adt_by_path.get('simple_cycle::SimpleCycle')
+    it = F.adt_by_path.get('simple_cycle::SimpleCycle2Iterator')
+    if not a or not it:
+        raise AnalysisIncomplete('SimpleCycle / SimpleCycle2Iterator not found')
+    fs = a['variants'][0]['fields']
+    vecs = [f['name'] for f in fs if f['ty'].replace(' ', '') == 'std::vec::Vec<usize>']
+    us = [f['name'] for f in fs if f['ty'] == 'usize']
+    ifs = it['variants'][0]['fields']
+    irefs = [f['name'] for f in ifs if f['ty'].endswith('simple_cycle::SimpleCycle') and f['ty'].startswith('&')]
+    ius = [f['name'] for f in ifs if f['ty'] == 'usize']
+    if len(vecs) != 1 or len(us) != 2 or len(fs) != 3 or len(irefs) != 1 or len(ius) != 1 or len(ifs) != 2:
+        raise AnalysisIncomplete('unexpected layout of SimpleCycle (%s) or its iterator (%s)' % ([f['name'] for f in fs], [f['name'] for f in ifs]))
+    cyc = I.St('simple_cycle::SimpleCycle', 'SimpleCycle', {vecs[0]: I.Sym(nf.sym_atom('P'), 'std::vec::Vec<usize>'), us[0]: RF.sym('U0'), us[1]: RF.sym('U1')})
+    ip = I.Interp(F)
+    v, _ = ip.call_body(F.body_by_suffix('SimpleCycle::iter'), [ip.ref_to(cyc)])
+    cur = repr(I.get_field(v, ius[0]))
+    if cur not in ('U0', 'U1'):
+        raise AnalysisIncomplete('iter() starts its cursor at %s' % cur)
+    start = us[0] if cur == 'U0' else us[1]
+    ln = us[1] if cur == 'U0' else us[0]
+    return {'ptrs': vecs[0], 'start': start, 'len': ln, 'it_cycle': irefs[0], 'it_next': ius[0]}
+
+
 def r7(ctx, F, rule, sfx):
     import itertools
     from .. import dtab
@@ -418,7 +444,8 @@ def r7(ctx, F, rule, sfx):
     ip = I.Interp(F)
     ip.unroll_limit = 4
     ip.unroll_allow_returns = True
-    cyc = I.St('simple_cycle::SimpleCycle', 'SimpleCycle', {'ptrs': I.Sym(nf.sym_atom('P'), 'std::vec::Vec<usize>'), 'start': RF.sym('S'), 'len': RF.sym('N')})
+    RO = cycle_roles(F)
+    cyc = I.St('simple_cycle::SimpleCycle', 'SimpleCycle', {RO['ptrs']: I.Sym(nf.sym_atom('P'), 'std::vec::Vec<usize>'), RO['start']: RF.sym('S'), RO['len']: RF.sym('N')})
     r = ip.ref_to(cyc, mut=True)
     v, rets = ip.call_body(te, [r, RF.sym('a'), RF.sym('b'), RF.sym('c')])
     ctx.evaluations += ip.evaluations
@@ -439,7 +466,7 @@ def r7(ctx, F, rule, sfx):
                     return ('S' + y, leaf.args[0] == '==')
         return None
     used = set()
-    for x in (I.get_field(final, 'ptrs'), I.get_field(final, 'start'), I.get_field(final, 'len'), v):
+    for x in (I.get_field(final, RO['ptrs']), I.get_field(final, RO['start']), I.get_field(final, RO['len']), v):
         for l in dtab.b_leaves(x).values():
             c = classify(l)
             if c is None:
@@ -469,10 +496,10 @@ def r7(ctx, F, rule, sfx):
                 if env['S' + tj]:
                     exp_start = ti
                 break
-        got_p = dtab.evaluate(I.get_field(final, 'ptrs'), val)
+        got_p = dtab.evaluate(I.get_field(final, RO['ptrs']), val)
         gm, gbase = _store_map(got_p)
-        got_len = as_rf(dtab.evaluate(as_rf(I.get_field(final, 'len')), val)) - RF.sym('N')
-        got_start = repr(dtab.evaluate(as_rf(I.get_field(final, 'start')), val))
+        got_len = as_rf(dtab.evaluate(as_rf(I.get_field(final, RO['len'])), val)) - RF.sym('N')
+        got_start = repr(dtab.evaluate(as_rf(I.get_field(final, RO['start'])), val))
         got_res = dtab.evaluate(v, val)
         gres = getattr(got_res, 'variant', None) or repr(got_res)
         ok = gm == exp_st and gbase == 'P' and got_len.is_const() and got_len.const_value() == exp_len and got_start == (exp_start or 'S') and gres == exp_res
@@ -491,24 +518,24 @@ def r7(ctx, F, rule, sfx):
     ip2.call_body(ini, [r2, RF.sym('a'), RF.sym('b'), RF.sym('c')])
     ctx.evaluations += ip2.evaluations
     fin = I.read_lv(r2.lv)
-    gm, gbase = _store_map(I.get_field(fin, 'ptrs'))
-    ok = gm == {'a': 'b', 'b': 'c', 'c': 'a'} and repr(I.get_field(fin, 'start')) == 'a' and as_rf(I.get_field(fin, 'len')) == RF.const(3)
-    ctx.check(rule, 'init-is-triangle-cycle' + sfx, ok, 'stores %s, start %s, len %s' % (gm, repr(I.get_field(fin, 'start')), repr(I.get_field(fin, 'len'))), 'a -> b -> c -> a, start = a, len = 3', where(ini), key_extra='init')
+    gm, gbase = _store_map(I.get_field(fin, RO['ptrs']))
+    ok = gm == {'a': 'b', 'b': 'c', 'c': 'a'} and repr(I.get_field(fin, RO['start'])) == 'a' and as_rf(I.get_field(fin, RO['len'])) == RF.const(3)
+    ctx.check(rule, 'init-is-triangle-cycle' + sfx, ok, 'stores %s, start %s, len %s' % (gm, repr(I.get_field(fin, RO['start'])), repr(I.get_field(fin, RO['len']))), 'a -> b -> c -> a, start = a, len = 3', where(ini), key_extra='init')
     # iterator follows successor pointers from start
     itb = F.body_by_suffix('SimpleCycle::iter')
     ip3 = I.Interp(F)
     v3, _ = ip3.call_body(itb, [ip3.ref_to(cyc)])
-    ok = repr(I.get_field(v3, 'next')) == 'S'
+    ok = repr(I.get_field(v3, RO['it_next'])) == 'S'
     nb = [b for b in F.bodies if 'SimpleCycle2Iterator' in b['path'] and b['path'].endswith('::next')]
     if len(nb) == 1:
         ip4 = I.Interp(F)
-        st_ = I.St('simple_cycle::SimpleCycle2Iterator', 'SimpleCycle2Iterator', {'simple_cycle': ip4.ref_to(cyc), 'next': RF.sym('cur')})
+        st_ = I.St('simple_cycle::SimpleCycle2Iterator', 'SimpleCycle2Iterator', {RO['it_cycle']: ip4.ref_to(cyc), RO['it_next']: RF.sym('cur')})
         r4_ = ip4.ref_to(st_, mut=True)
         v4, _ = ip4.call_body(nb[0], [r4_])
-        ok = ok and isinstance(v4, I.St) and v4.variant == 'Some' and repr(v4.fields[0]) == 'cur' and repr(I.get_field(I.read_lv(r4_.lv), 'next')) == 'P[cur]'
+        ok = ok and isinstance(v4, I.St) and v4.variant == 'Some' and repr(v4.fields[0]) == 'cur' and repr(I.get_field(I.read_lv(r4_.lv), RO['it_next'])) == 'P[cur]'
     else:
         ok = False
-    ctx.check(rule, 'cycle-walk-follows-successors' + sfx, ok, 'iter starts at %s' % repr(I.get_field(v3, 'next')), 'yield cur, then cur := ptrs[cur], starting at start', where(itb), key_extra='walk')
+    ctx.check(rule, 'cycle-walk-follows-successors' + sfx, ok, 'iter starts at %s' % repr(I.get_field(v3, RO['it_next'])), 'yield cur, then cur := ptrs[cur], starting at start', where(itb), key_extra='walk')
     # compute_boundary: init from the first removed vertex, every other removed vertex offered in stored order
     cb = F.body_by_suffix('ConvexCell::compute_boundary')
     no = [b['path'] for b in F.bodies if 'simple_cycle::SimpleCycle' in b['path']]
